@@ -15,7 +15,9 @@ pub struct HashMap<K, V> {
 }
 
 impl<K, V> HashMap<K, V> {
-    pub fn new() -> Self { HashMap { items: Vec::new() } }
+    // pre-allocated: a growing Vec reallocates (malloc + copy of a symbolic-sized array), which is what makes
+    // even twelve inserts explode in CBMC
+    pub fn new() -> Self { HashMap { items: Vec::with_capacity(32) } }
     pub fn len(&self) -> usize { self.items.len() }
     pub fn is_empty(&self) -> bool { self.items.is_empty() }
     pub fn values(&self) -> impl Iterator<Item = &V> { self.items.iter().map(|kv| &kv.1) }
@@ -28,36 +30,33 @@ impl<K, V> Default for HashMap<K, V> {
 }
 
 impl<K: PartialEq, V> HashMap<K, V> {
+    /// Appends without looking for an existing entry (a scan per insert makes building a 12-entry table cost
+    /// minutes in CBMC); lookups scan from the newest entry, so the last value inserted for a key wins, as in
+    /// std.  Deviation from std: the previous value is not returned and a re-inserted key is kept twice
+    /// (visible to len / keys / values) - no code on a harness path relies on either.
     pub fn insert(&mut self, key: K, value: V) -> Option<V> {
-        let mut i = 0;
-        while i < self.items.len() {
-            if self.items[i].0 == key {
-                return Some(std::mem::replace(&mut self.items[i].1, value));
-            }
-            i += 1;
-        }
         self.items.push((key, value));
         None
     }
 
     pub fn get<Q: ?Sized>(&self, key: &Q) -> Option<&V> where K: Borrow<Q>, Q: PartialEq {
-        let mut i = 0;
-        while i < self.items.len() {
+        let mut i = self.items.len();
+        while i > 0 {
+            i -= 1;
             if self.items[i].0.borrow() == key {
                 return Some(&self.items[i].1);
             }
-            i += 1;
         }
         None
     }
 
     pub fn get_mut<Q: ?Sized>(&mut self, key: &Q) -> Option<&mut V> where K: Borrow<Q>, Q: PartialEq {
-        let mut i = 0;
-        while i < self.items.len() {
+        let mut i = self.items.len();
+        while i > 0 {
+            i -= 1;
             if self.items[i].0.borrow() == key {
                 return Some(&mut self.items[i].1);
             }
-            i += 1;
         }
         None
     }
@@ -97,7 +96,7 @@ pub struct HashSet<T> {
 }
 
 impl<T> HashSet<T> {
-    pub fn new() -> Self { HashSet { items: Vec::new() } }
+    pub fn new() -> Self { HashSet { items: Vec::with_capacity(32) } }
     pub fn len(&self) -> usize { self.items.len() }
     pub fn iter(&self) -> std::slice::Iter<'_, T> { self.items.iter() }
 }
@@ -150,7 +149,6 @@ pub type FnvHashSet<T> = HashSet<T>;
 /// stands for "the follower is eventually stopped": when it is used up, reads fail.
 pub mod io {
     use std::io::{BufRead, ErrorKind, Read, Result, Seek, SeekFrom};
-    use std::marker::PhantomData;
     use std::os::unix::io::AsRawFd;
 
     pub const MAX_FILE: usize = 4;
@@ -164,32 +162,45 @@ pub mod io {
         pub growing: bool,     // may `visible` advance between reads?
     }
 
+    // Set by the harness before the readers are built and only *read* afterwards: every piece of mutable state
+    // (position, visible length, counters) lives inside the reader.  (Incrementing a `static mut` from read_line
+    // made CBMC report invalid pointers for every String allocated afterwards - reproduced in isolation, not
+    // understood; recorded in DESIGN.md §6.2.)
     pub static mut FILES: [SymFile; 2] = [SymFile { content: [0; MAX_FILE], len: 0, visible: 0, pos: 0, growing: false }; 2];
+    /// reads a reader may perform; a correct follower needs fewer, so running past it means a lost line (asserted)
     pub static mut READ_BUDGET: usize = 0;
-    pub static mut READ_CALLS: usize = 0;
+    /// may reads fail (bytes >= 0x80 = "not UTF-8")?  Concretely false in harnesses whose alphabet is ASCII: the
+    /// Err paths (and the very expensive drop glue of io::Error in the callers) are then pruned by CBMC.
+    pub const ERRORS_ENABLED: bool = false;   // (a compile-time constant: read from a static it is not folded and the Err paths stay)
+    /// how many reads at the end of the visible data may find nothing new ("poll between two appends")
+    pub static mut MAX_STALLS: usize = 0;
 
     pub struct BufReader<R> {
-        slot: usize,
-        _inner: PhantomData<R>,
+        file: SymFile,
+        reads: usize,
+        stalls: usize,
         _file: std::mem::ManuallyDrop<R>,
     }
 
     impl<R: AsRawFd> BufReader<R> {
         pub fn new(inner: R) -> BufReader<R> {
             let slot = if inner.as_raw_fd() == 4 { 1 } else { 0 };
-            BufReader { slot, _inner: PhantomData, _file: std::mem::ManuallyDrop::new(inner) }
+            BufReader { file: unsafe { FILES[slot] }, reads: 0, stalls: 0, _file: std::mem::ManuallyDrop::new(inner) }
         }
     }
 
     impl<R> BufReader<R> {
+        pub fn stalls(&self) -> usize { self.stalls }
+
         fn advance_visibility(&mut self) {
-            unsafe {
-                let f = &mut FILES[self.slot];
-                if f.growing {
-                    let v: usize = kani::any();
-                    kani::assume(v >= f.visible && v <= f.len);
-                    f.visible = v;
+            if self.file.growing {
+                let v: usize = kani::any();
+                kani::assume(v >= self.file.visible && v <= self.file.len);
+                if v == self.file.visible && self.file.pos == self.file.visible && self.file.visible < self.file.len {
+                    self.stalls += 1;
+                    kani::assume(self.stalls <= unsafe { MAX_STALLS });
                 }
+                self.file.visible = v;
             }
         }
     }
@@ -197,79 +208,71 @@ pub mod io {
     impl<R> Read for BufReader<R> {
         fn read(&mut self, buf: &mut [u8]) -> Result<usize> {
             self.advance_visibility();
-            unsafe {
-                let f = &mut FILES[self.slot];
-                let mut n = 0;
-                while n < buf.len() && f.pos < f.visible {
-                    buf[n] = f.content[f.pos];
-                    f.pos += 1;
-                    n += 1;
-                }
-                Ok(n)
+            let mut n = 0;
+            while n < buf.len() && self.file.pos < self.file.visible {
+                buf[n] = self.file.content[self.file.pos];
+                self.file.pos += 1;
+                n += 1;
             }
+            Ok(n)
         }
     }
 
     impl<R> BufRead for BufReader<R> {
         fn fill_buf(&mut self) -> Result<&[u8]> {
             self.advance_visibility();
-            unsafe {
-                let f = &FILES[self.slot];
-                Ok(&f.content[f.pos..f.visible])
-            }
+            Ok(&self.file.content[self.file.pos..self.file.visible])
         }
 
         fn consume(&mut self, amt: usize) {
-            unsafe {
-                let f = &mut FILES[self.slot];
-                f.pos = if f.pos + amt > f.visible { f.visible } else { f.pos + amt };
-            }
+            self.file.pos = if self.file.pos + amt > self.file.visible { self.file.visible } else { self.file.pos + amt };
         }
 
         fn read_line(&mut self, buf: &mut String) -> Result<usize> {
-            unsafe {
-                READ_CALLS += 1;
-                if READ_CALLS > READ_BUDGET {
-                    return Err(ErrorKind::Interrupted.into());
-                }
+            self.reads += 1;
+            if self.reads > unsafe { READ_BUDGET } {
+                // the writer makes progress (bounded stalls), so a correct reader needs at most READ_BUDGET reads
+                // to deliver what was asked for: running past it means a line was lost and the reader polls forever
+                kani::assert(false, "the reader delivers every completed line within the read budget (it does not poll forever)");
+                kani::assume(false);
             }
             self.advance_visibility();
-            unsafe {
-                let f = &mut FILES[self.slot];
-                let start = f.pos;
-                let mut end = f.pos;
-                let mut valid = true;
-                while end < f.visible {
-                    let b = f.content[end];
-                    end += 1;
-                    if b >= 0x80 { valid = false; }   // the harness alphabets use 0xFF as "not UTF-8"; no multi-byte characters
-                    if b == b'\n' { break; }
-                }
-                f.pos = end;
-                if !valid {
-                    return Err(ErrorKind::InvalidData.into());
-                }
-                let mut i = start;
-                while i < end {
-                    buf.push(f.content[i] as char);
-                    i += 1;
-                }
-                Ok(end - start)
+            let start = self.file.pos;
+            let mut end = self.file.pos;
+            let mut valid = true;
+            while end < self.file.visible {
+                let b = self.file.content[end];
+                end += 1;
+                if b >= 0x80 { valid = false; }   // the harness alphabets use 0xFF as "not UTF-8"; no multi-byte characters
+                if b == b'\n' { break; }
             }
+            self.file.pos = end;
+            let errors = ERRORS_ENABLED;
+            if errors && !valid {
+                return Err(ErrorKind::InvalidData.into());
+            }
+            // one append per read (a push per byte re-checks / regrows the String's capacity every time)
+            if (errors || valid) && end > start {
+                let mut tmp = [0u8; MAX_FILE];
+                let mut n = 0;
+                while start + n < end {
+                    tmp[n] = self.file.content[start + n];
+                    n += 1;
+                }
+                buf.push_str(unsafe { std::str::from_utf8_unchecked(&tmp[..n]) });
+            }
+            Ok(end - start)
         }
     }
 
     impl<R> Seek for BufReader<R> {
         fn seek(&mut self, pos: SeekFrom) -> Result<u64> {
-            unsafe {
-                let f = &mut FILES[self.slot];
-                match pos {
-                    SeekFrom::Start(p) => { f.pos = if (p as usize) < f.visible { p as usize } else { f.visible }; }
-                    SeekFrom::End(_) => { f.pos = f.visible; }
-                    SeekFrom::Current(_) => {}
-                }
-                Ok(f.pos as u64)
+            match pos {
+                SeekFrom::Start(p) => { self.file.pos = if (p as usize) < self.file.visible { p as usize } else { self.file.visible }; }
+                SeekFrom::End(_) => { self.file.pos = self.file.visible; }
+                SeekFrom::Current(_) => {}
             }
+            Ok(self.file.pos as u64)
         }
     }
 }
